@@ -305,6 +305,7 @@ pub struct Flw {
     pub via_logger: bool,
     pub lg: Option<(Box<dyn log::Log>, Vec<flexi_logger::LoggerHandle>)>,
     pub errchan: PathBuf,
+    pub truncating: bool,
 }
 impl Flw {
     pub fn ensure(&mut self) -> &ArcFileLogWriter {
@@ -380,6 +381,8 @@ pub struct Hist {
     pub lossy: bool,       // EXTRM / RESET / async-unflushed: stream oracle off
     pub rotations: u64,
     pub unflushed: bool,   // buffered bytes may not be on disk yet
+    pub crashed: Option<Vec<u8>>,
+    pub acked_at_crash: usize, // the process was killed during a write of these bytes
     pub reset_seen: bool,
     pub trunc_pending: bool, // a non-rotating, non-appending logger was started: truncation at its first write
     pub first_cfg: Option<CfgP>,
@@ -423,8 +426,27 @@ fn oracles(ctx: &mut Ctx, case_id: &str, li: usize, f: &Flw, h: &Hist, at_sync_p
     }
     let contents: Vec<Vec<u8>> = order.iter().map(|n| read_file(&f.dir.join(n))).collect();
     let all: Vec<u8> = contents.iter().flat_map(|c| c.iter().copied()).collect();
-    let stream = h.stream();
+    let mut stream = h.stream();
     let cleanup = f.cfg.rot.as_ref().and_then(|r| r.cleanup);
+    if let Some(inflight) = &h.crashed {
+        // --- crash (C11): every acknowledged record is there; at most the in-flight one in addition
+        let n_acked = h.acked_at_crash;
+        let acked: Vec<u8> = h.recs[..n_acked].iter().flat_map(|r| r.0.iter().copied()).collect();
+        let later: Vec<u8> = h.recs[n_acked..].iter().flat_map(|r| r.0.iter().copied()).collect();
+        let mut with_inflight = acked.clone();
+        with_inflight.extend(inflight);
+        let a: Vec<u8> = acked.iter().chain(later.iter()).copied().collect();
+        let b: Vec<u8> = with_inflight.iter().chain(later.iter()).copied().collect();
+        if cleanup.is_none() && !h.lossy && !f.truncating {
+            if all != a && all != b {
+                ctx.report.fail(case_id, "crash-loses-acknowledged-record", &format!(
+                    "line {li}: after the kill (and restart) the files {order:?} hold {:?}; acknowledged: {:?}, in flight: {:?}, logged after the restart: {:?}",
+                    String::from_utf8_lossy(&all), String::from_utf8_lossy(&acked), String::from_utf8_lossy(inflight), String::from_utf8_lossy(&later)));
+            }
+        }
+        return;
+    }
+    let _ = &mut stream;
     if h.lossy || (!f.moved_names.is_empty() && f.cfg.rot.is_some()) {
         return;
     }
@@ -456,7 +478,8 @@ fn oracles(ctx: &mut Ctx, case_id: &str, li: usize, f: &Flw, h: &Hist, at_sync_p
         let gz = order.iter().filter(|n| n.ends_with(".gz")).count();
         let kk = if direct && k == 0 { 1 } else { k };
         let compressible = f.spec.suffix.is_some();
-        if h.rotations > 0 && !h.faulty && (plain > kk + if compressible { 0 } else { m } || gz > m) {
+        let _ = compressible;
+        if h.rotations > 0 && !h.faulty && (plain > kk || gz > m) {
             ctx.report.fail(case_id, "cleanup-bounds", &format!(
                 "line {li}: {plain} rotated plain files and {gz} compressed files exist ({order:?}) but the limits are {kk} and {m}"));
         }
@@ -549,16 +572,87 @@ pub fn execute(ctx: &mut Ctx, lines: &[String]) -> Vec<String> {
     out
 }
 
+/// environment of a child process that executes the first life of a crash case
+pub struct CrashChild {
+    pub dir: PathBuf,
+    pub acks: PathBuf,
+    pub side: PathBuf,
+}
+pub static CRASH_CHILD: Mutex<Option<CrashChild>> = Mutex::new(None);
+
+fn dump_creation_table(dir: &Path, side: &Path) {
+    let mut s = String::new();
+    for n in list_dir(dir, &[]) {
+        if let Some(t) = flexi_logger::verif_hooks::creation_time(&dir.join(&n)) {
+            s.push_str(&format!("{}\t{}\n", n, t.format("%Y%m%d%H%M%S")));
+        }
+    }
+    let _ = std::fs::write(side, s);
+}
+
 fn execute_inner(ctx: &mut Ctx, lines: &[String]) -> Vec<String> {
     let case_id = tokens(&lines[0])[2..].join(" ");
+    // --- C11: the part of the case up to the kill runs in a child process
+    let crash_at = lines.iter().position(|l| l.starts_with("CW ") || l.starts_with("CROT "));
+    let in_child = CRASH_CHILD.lock().unwrap().is_some();
+    let mut pre_answers: Vec<String> = Vec::new();
+    let mut crash_info: Option<(Vec<u8>, bool, Vec<Vec<u8>>)> = None; // (in-flight bytes, killed, acked records)
+    let mut fixed_dir: Option<PathBuf> = CRASH_CHILD.lock().unwrap().as_ref().map(|c| c.dir.clone());
+    if let (Some(ci), false) = (crash_at, in_child) {
+        let dir = ctx.work.join(format!("case-{}-{}", std::process::id(), ctx.case_no));
+        let _ = std::fs::remove_dir_all(&dir);
+        std::fs::create_dir_all(&dir).unwrap();
+        let cf = ctx.work.join(format!("crashcase-{}.txt", std::process::id()));
+        let acks = ctx.work.join(format!("crashacks-{}.txt", std::process::id()));
+        let side = ctx.work.join(format!("crashside-{}.txt", std::process::id()));
+        let _ = std::fs::remove_file(&acks);
+        let _ = std::fs::remove_file(&side);
+        let mut text = lines[..=ci].join("\n");
+        text.push_str("\nEND\n");
+        std::fs::write(&cf, text).unwrap();
+        let exe = std::env::current_exe().unwrap();
+        let o = std::process::Command::new(exe).arg("child").arg("crash").arg(&cf).arg(&dir).arg(&acks).arg(&side).arg(&ctx.work).output().expect("child");
+        let killed = !o.status.success();
+        let acked_idx: Vec<usize> = std::fs::read_to_string(&acks).unwrap_or_default().lines().filter_map(|l| l.parse().ok()).collect();
+        let mut acked: Vec<Vec<u8>> = Vec::new();
+        for (i, l) in lines[..=ci].iter().enumerate() {
+            let t = tokens(l);
+            let a = match t[0] {
+                "CASE" => header_answer(l),
+                "W" | "ROT" | "WP" | "RP" => { if acked_idx.contains(&i) { if t[0] == "W" { acked.push(unhex(t[1]).unwrap()); } "ok".to_string() } else { ctx.report.fail(&case_id, "unacked-before-kill", &format!("line {i}: operation before the kill did not return in the child: {}", String::from_utf8_lossy(&o.stderr))); "unacked".to_string() } }
+                "CW" | "CROT" => if killed { "killed".to_string() } else { "nopoint".to_string() },
+                _ => "ok".to_string(),
+            };
+            pre_answers.push(a);
+        }
+        ctx.report.count(if killed { "crash.killed" } else { "crash.nopoint" });
+        let t = tokens(&lines[ci]);
+        ctx.report.count(&format!("crash.at.{}", if t[0] == "CW" { t[3] } else { t[2] }));
+        let inflight = if t[0] == "CW" { unhex(t[1]).unwrap() } else { vec![] };
+        if !killed && t[0] == "CW" { acked.push(inflight.clone()); }
+        crash_info = Some((inflight, killed, acked));
+        // the creation times the dead process had recorded
+        flexi_logger::verif_hooks::clear_creation_table();
+        flexi_logger::verif_hooks::set_virtual_now(Some(stamp_to_local(20200101000000)));
+        for l in std::fs::read_to_string(&side).unwrap_or_default().lines() {
+            if let Some((n, t)) = l.split_once('\t') {
+                flexi_logger::verif_hooks::set_creation(&dir.join(n), stamp_to_local(t.parse().unwrap()));
+            }
+        }
+        fixed_dir = Some(dir);
+        let _ = std::fs::remove_file(&cf);
+    }
+    let skip = if crash_info.is_some() { crash_at.unwrap() + 1 } else { 0 };
     let err_path = ensure_error_channel(ctx);
     let mut ech = ErrChan { path: err_path, seen: 0, seen_errs: 0 };
     ech.reset();
-    let dir = ctx.work.join(format!("case-{}-{}", std::process::id(), ctx.case_no));
-    let _ = std::fs::remove_dir_all(&dir);
-    std::fs::create_dir_all(&dir).unwrap();
-    flexi_logger::verif_hooks::clear_creation_table();
-    flexi_logger::verif_hooks::set_virtual_now(Some(stamp_to_local(20200101000000)));
+    let dir = fixed_dir.clone().unwrap_or_else(|| ctx.work.join(format!("case-{}-{}", std::process::id(), ctx.case_no)));
+    if fixed_dir.is_none() {
+        let _ = std::fs::remove_dir_all(&dir);
+        std::fs::create_dir_all(&dir).unwrap();
+        flexi_logger::verif_hooks::clear_creation_table();
+        flexi_logger::verif_hooks::set_virtual_now(Some(stamp_to_local(20200101000000)));
+    }
     flexi_logger::verif_hooks::set_fault_handler(None);
     let mut f = Flw {
         dir: dir.clone(),
@@ -575,11 +669,29 @@ fn execute_inner(ctx: &mut Ctx, lines: &[String]) -> Vec<String> {
         via_logger: false,
         lg: None,
         errchan: ech.path.clone(),
+        truncating: false,
     };
     let mut h = Hist::default();
     let mut nocheck_foreign = false;
     let mut out = Vec::with_capacity(lines.len());
+    out.extend(pre_answers.iter().cloned());
+    if let Some((inflight, _killed, acked)) = &crash_info {
+        // replay the configuration lines of the dead process for the harness' own bookkeeping
+        for l in &lines[..skip] {
+            let t = tokens(l);
+            match t.as_slice() {
+                ["SPEC", rest @ ..] if rest.len() == 5 => f.spec = parse_spec(rest),
+                ["CFG", rest @ ..] if rest.len() == 5 => f.cfg = parse_cfg(rest),
+                _ => {}
+            }
+        }
+        for b in acked { h.recs.push((b.clone(), 0)); }
+        h.crashed = Some(inflight.clone());
+        h.acked_at_crash = h.recs.len();
+        h.restarts += 1;
+    }
     for (li, line) in lines.iter().enumerate() {
+        if li < skip { continue; }
         let t = tokens(line);
         let is_async = matches!(f.mode, Some(WriteMode::AsyncWith { .. }));
         let buffered = f.mode.map_or(f.cfg.cap.is_some(), |m| !matches!(m, WriteMode::Direct));
@@ -687,6 +799,11 @@ fn execute_inner(ctx: &mut Ctx, lines: &[String]) -> Vec<String> {
                 f.bg_cleanup = *b == "1";
                 "ok".into()
             }
+            // a pre-existing file that DOES follow the family pattern (left by somebody, or by an earlier life)
+            ["PREFILE", name, content] => {
+                std::fs::write(dir.join(unhexs(name).unwrap()), unhex(content).unwrap()).unwrap();
+                "ok".into()
+            }
             ["FOREIGN", name, content] => {
                 let n = unhexs(name).unwrap();
                 let c = unhex(content).unwrap();
@@ -748,6 +865,55 @@ fn execute_inner(ctx: &mut Ctx, lines: &[String]) -> Vec<String> {
                     h.rotations += 1;
                 }
                 if is_async { "ok".into() } else if ok { "ok".into() } else { "err".into() }
+            }
+            ["WP", b, now] | ["CW", b, now, ..] => {
+                // the names of the points the write passes (WP) / the kill at one of them (CW, child only)
+                let bytes = unhex(b).unwrap();
+                let now: u64 = now.parse().unwrap();
+                let w = f.ensure().clone();
+                let rec: std::sync::Arc<Mutex<Vec<String>>> = Default::default();
+                let rec2 = rec.clone();
+                let kill: Option<(String, usize)> = if t[0] == "CW" { Some((t[3].to_string(), t[4].parse().unwrap())) } else { None };
+                let child = CRASH_CHILD.lock().unwrap().as_ref().map(|c| (c.dir.clone(), c.side.clone()));
+                flexi_logger::verif_hooks::set_point_handler(Some(Arc::new(move |name| {
+                    let mut g = rec2.lock().unwrap();
+                    if let (Some((kn, occ)), Some((d, side))) = (&kill, &child) {
+                        if name == kn && g.iter().filter(|x| x.as_str() == name).count() == *occ {
+                            dump_creation_table(d, side);
+                            std::process::abort();
+                        }
+                    }
+                    g.push(name.to_string());
+                })));
+                let payload = String::from_utf8(bytes[..bytes.len() - 1].to_vec()).unwrap();
+                let r = with_clock(now, || LogWriter::write(&*w, &mut DeferredNow::new(), &Record::builder().level(log::Level::Info).args(format_args!("{}", payload)).build()));
+                flexi_logger::verif_hooks::set_point_handler(None);
+                if r.is_ok() { h.recs.push((bytes.clone(), now)); }
+                let names = rec.lock().unwrap().clone();
+                if t[0] == "CW" { "nopoint".into() } else if names.is_empty() { "-".into() } else { names.join(",") }
+            }
+            ["RP", now] | ["CROT", now, ..] => {
+                let now: u64 = now.parse().unwrap();
+                let w = f.ensure().clone();
+                let rec: std::sync::Arc<Mutex<Vec<String>>> = Default::default();
+                let rec2 = rec.clone();
+                let kill: Option<(String, usize)> = if t[0] == "CROT" { Some((t[2].to_string(), t[3].parse().unwrap())) } else { None };
+                let child = CRASH_CHILD.lock().unwrap().as_ref().map(|c| (c.dir.clone(), c.side.clone()));
+                flexi_logger::verif_hooks::set_point_handler(Some(Arc::new(move |name| {
+                    let mut g = rec2.lock().unwrap();
+                    if let (Some((kn, occ)), Some((d, side))) = (&kill, &child) {
+                        if name == kn && g.iter().filter(|x| x.as_str() == name).count() == *occ {
+                            dump_creation_table(d, side);
+                            std::process::abort();
+                        }
+                    }
+                    g.push(name.to_string());
+                })));
+                let r = with_clock(now, || w.rotate());
+                flexi_logger::verif_hooks::set_point_handler(None);
+                if r.is_ok() { h.rotations += 1; h.forced = true; }
+                let names = rec.lock().unwrap().clone();
+                if t[0] == "CROT" { "nopoint".into() } else if names.is_empty() { "-".into() } else { names.join(",") }
             }
             ["ROT", now, fl] => {
                 let now: u64 = now.parse().unwrap();
@@ -898,13 +1064,18 @@ fn execute_inner(ctx: &mut Ctx, lines: &[String]) -> Vec<String> {
             }
             _ => format!("bad-op {line}"),
         };
+        if let Some(c) = CRASH_CHILD.lock().unwrap().as_ref() {
+            use std::io::Write as _;
+            let mut fa = std::fs::OpenOptions::new().create(true).append(true).open(&c.acks).unwrap();
+            writeln!(fa, "{li}").unwrap();
+        }
         out.push(ans);
     }
     let f_via_logger = f.via_logger;
     drop(f);
     flexi_logger::verif_hooks::set_virtual_now(None);
     flexi_logger::verif_hooks::set_fault_handler(None);
-    let _ = std::fs::remove_dir_all(&dir);
+    if !in_child { let _ = std::fs::remove_dir_all(&dir); }
     if h.rotations > 0 || h.restarts > 0 || (f_via_logger && h.recs.len() > 1) {
         ctx.report.nontrivial_case(lines);
     }
